@@ -15,7 +15,7 @@ JSON-lines driver of the `Sched` model.
 Submissions over pre-existing results (`Sched/Rerun.lean`).  Jobs are named [node, index]; the checksum of a job is
 computed from the node, the index and the VALUES the node read when it started (value = 2*checksum + generation):
   {"op": "rerun", "mode": "async" | "sync", "nodes", "edges", "sizes": [jobs per node], "k", "rerun": bool, "ro": bool,
-   "pre_fail": [[n,i]..],          -- first submission: synchronous loop, unlimited, these bodies raise
+   "pre_fail": [[n,i]..],          -- first submission (complete, any worker that goes on after a failure): these bodies raise
    "fail": [[n,i]..], "schedule": [[["acq",n,i] | ["fin",n,i] | ["done",n,i], ...], ...]}
   -> rounds as above with jobs as [n,i]; "began": [[n,i]..], "fresh": {node: [bool per job]},
      "consistent": {node: bool}   -- the node's jobs are the ones its predecessors' FINAL values give
@@ -260,6 +260,24 @@ def finalJ (c : RCase) (cfg : RCfg) (r : RSt) : List (String × Json) :=
       Json.bool ((r.st.ns.get n).blk.isNone || (r.st.ns.get n).unrunnable ||
         (r.st.ns.get n).cks == c.wf2.mkJobs n (inputsOf wfd r.st.ns n))))))]
 
+/-- the cache a complete first submission leaves behind: every job of every node that is not downstream of a failed
+    job has a result (`C14_full`) -/
+def firstPass (wf : Wf) (fail : Ck → Bool) : List NodeId → List (NodeId × List Ck × Bool) → List (Ck × Truth) →
+    List (Ck × Truth)
+  | [], _, acc => acc
+  | n :: rest, seenN, acc =>
+    let ps := wf.preds n
+    let ready := ps.all (fun p => match seenN.lookup p with | some (_, ok) => ok | none => false)
+    if !ready then firstPass wf fail rest ((n, [], false) :: seenN) acc else
+    let ins := ps.map (fun p => match seenN.lookup p with | some (cks, _) => cks.map wf.body | none => [])
+    let cks := wf.mkJobs n ins
+    firstPass wf fail rest ((n, cks, cks.all (fun c => !fail c)) :: seenN)
+      (acc ++ cks.map (fun c => (c, if fail c then Truth.err else Truth.ok)))
+
+def outcomeRJ (nodes : List Nat) (ns : NSMap) : Outcome → List (String × Json)
+  | .failed l => [("outcome", "failed"), ("named", Json.arr (l.map (findJob nodes ns)).toArray)]
+  | o => outcomeJ o
+
 def handleRerun (j : Json) : Except String Json := do
   let c ← parseRCase j
   let mode ← getStr j "mode"
@@ -267,12 +285,11 @@ def handleRerun (j : Json) : Except String Json := do
   | none => return Json.mkObj [("sorted", Json.null), ("status", "cycle")]
   | some sorted =>
     let fuel := 40 * (c.wf2.g.nodes.length + 10)
-    -- the first submission: synchronous loop, no limit
-    let (o1, st1) := runSync c.wf1 none sorted c.fail1 fuel
-    let w1 := st1.w
+    let tbl := firstPass c.wf1 c.fail1 sorted [] []
+    let w1 : World := fun x => (tbl.lookup x).getD .idle
     let cfg : RCfg := if c.ro then { c.cfg0 with ro := w1 } else c.cfg0
     let w0 : World := if c.ro then fun _ => .idle else w1
-    let first : String := match o1 with | .success => "success" | .raised _ => "raised" | .outOfFuel => "outOfFuel"
+    let first : String := if tbl.any (fun x => x.2 == Truth.err) then "failed" else "success"
     if mode == "sync" then
       let (o, r) := runSyncR c.wf2 c.k sorted cfg w0 c.fail2 fuel
       let bad := c.wf2.g.nodes.filter (fun n => !(r.st.ns.get n).errored.isEmpty)
@@ -286,7 +303,8 @@ def handleRerun (j : Json) : Except String Json := do
       let (rounds, mx, status, o, r) ← playR c cfg sorted sched (pollStepR c.wf2 c.k sorted cfg (RSt.init w0)) [] #[] 0
       let fin := match r with | some r => finalJ c cfg r | none => []
       return Json.mkObj ([("sorted", natsJ sorted), ("first", Json.str first), ("rounds", Json.arr rounds),
-        ("status", Json.str status), ("maxlocked", toJson mx)] ++ fin ++ (match o with | some o => outcomeJ o | none => []))
+        ("status", Json.str status), ("maxlocked", toJson mx)] ++ fin ++
+        (match o, r with | some o, some r => outcomeRJ c.wf2.g.nodes r.st.ns o | _, _ => []))
 
 def handle (j : Json) : Json :=
   let r : Except String Json := do
